@@ -349,6 +349,11 @@ func (t *Terms) load(u *ssa.UnOp) string {
 		if sv := t.reachingStore(a, u); sv != nil {
 			return t.Of(sv)
 		}
+		// several stores may reach, but once no store to the local can execute
+		// any more its value is final: all such loads denote the same value.
+		if allocMode(a) == 0 && t.frozenAfter(a, u) {
+			return "load(" + a.Name() + ")#final"
+		}
 		return "load(" + a.Name() + ")@" + u.Name()
 	case *ssa.FieldAddr:
 		// field of a local struct variable that is written exactly once as a
@@ -373,6 +378,46 @@ func (t *Terms) load(u *ssa.UnOp) string {
 		return "*fv:" + a.Name() + "@" + u.Name()
 	}
 	return "*" + t.Of(u.X) + "@" + u.Name()
+}
+
+// frozenAfter: no store to the local is reachable from the load (so the local
+// keeps its current value for the rest of this activation).
+func (t *Terms) frozenAfter(a *ssa.Alloc, load *ssa.UnOp) bool {
+	isStore := func(in ssa.Instruction) bool {
+		st, ok := in.(*ssa.Store)
+		return ok && st.Addr == a
+	}
+	b := load.Block()
+	after := false
+	for _, in := range b.Instrs {
+		if in == ssa.Instruction(load) {
+			after = true
+			continue
+		}
+		if after && isStore(in) {
+			return false
+		}
+	}
+	seen := map[*ssa.BasicBlock]bool{}
+	var walk func(x *ssa.BasicBlock) bool
+	walk = func(x *ssa.BasicBlock) bool {
+		for _, s := range x.Succs {
+			if seen[s] {
+				continue
+			}
+			seen[s] = true
+			for _, in := range s.Instrs {
+				if isStore(in) {
+					return false
+				}
+			}
+			if !walk(s) {
+				return false
+			}
+		}
+		return true
+	}
+	return walk(b)
 }
 
 // wholeStore returns the single value stored to a local struct alloc whose
